@@ -291,7 +291,7 @@ def read_colname(rat):
              IN("*gpp_pos"),
              "g_off <= %s && %s <= %s" % (POS_OFF, POS_OFF, S_OFF),
              "i == %s - g_off" % POS_OFF,
-             "(g_k < i) ==> name[g_k] == v_k",
+             "(g_k < i && g_k < g_maxlen) ==> name[g_k] == v_k",     # g_maxlen == SOPLEX_LPF_MAX_LINE_LEN (requires): keeps the invariant itself in bounds
          ],
          "assigns": ["i", "*gpp_pos", "__CPROVER_object_whole(name)"], "decreases": "%s - %s" % (S_OFF, POS_OFF)},
     ],
@@ -305,6 +305,7 @@ def read_colname(rat):
 }
     d["name"] += sfx
     d["flags"] = ["--bounds-check", "--pointer-check", "--signed-overflow-check", "--conversion-check", "--sat-solver", "cadical"]
+    d["timeout_s"] = 600       # ~200 s on an idle machine while the overflow is in the tree (several solver rounds), far more under load
     if rat:
         d["function"] = "LPFreadColName(char*& pos, NameSet* colnames, LPColSetBase<Rational>& colset, const LPColBase<Rational>* emptycol, SPxOut* spxout)  [spxlpbase_rational.hpp]"
         d["defines"]["RAT_TWIN"] = ""
